@@ -405,7 +405,7 @@ async def random_schedule(ex, spawn, settle):
             ex.probes_ok = True
     if stuck:
         ex.violations.append(("C07:caller-blocked-forever", {"callers": [(c.idx, c.state) for c in stuck], "snapshot": ex.snapshot()}))
-    else:
+    elif not getattr(ex, "probe_failed", False):
         ex.check_final()
     ex.net.gated = False            # the closing operations of pool.aclose() complete at once
     if not stuck and not getattr(ex, "probe_failed", False):
